@@ -120,6 +120,27 @@ void h_buzhash_same_byte(void) {
     V_COVER(in.fill == SPEC_W && in.loc == 13); V_COVER(in.fill == 5); V_COVER(in.byte == 0); V_COVER(in.byte == -1);
 }
 
+
+/* ---- the same lemma from the state after buzhash_reset (only the byte value is symbolic: all 256) ---- */
+typedef struct { char byte; buzHash stale; } IN_bz4;
+V_INPUT(IN_bz4)
+void h_buzhash_same_byte_from_reset(void) {
+    IN_bz4 in = nondet_IN_bz4();
+    buzHash b = in.stale; b.window = NULL;
+    char c = in.byte; uint32_t out = 0; bool r = true;
+    for(int k = 0; k < SPEC_W; k++) {
+        r = r && buzhash_update(&b, &c, SPEC_W, &out);
+        if(r && k < SPEC_W - 1) V_ASSERT(out == 1, "C16.buzhash_update.no_boundary_before_window_is_full");
+    }
+    V_ASSUME(r);
+    V_ASSERT(b.window_fill == SPEC_W && out == b.h && b.h == spec_bz(b.window, b.window_loc, SPEC_W), "C01.buzhash_lemma.window_full_after_48_updates");
+    V_ASSERT((out & SPEC_BZ_MASK) != 0, "C01.buzhash_lemma.window_full_of_one_byte_never_matches");
+    uint32_t h48 = out;
+    r = buzhash_update(&b, &c, SPEC_W, &out);
+    V_ASSERT(r && out == h48, "C01.buzhash_lemma.further_updates_with_the_same_byte_keep_the_hash");
+    V_COVER(in.byte == 0); V_COVER(in.byte == -1); V_COVER(in.byte == 'a');
+}
+
 #ifdef VERIF_NATIVE
 #include "replay_in.h"
 #endif
